@@ -113,7 +113,8 @@ for seed, (prop, needs, caught, key) in T.items():
             conf = None
     meta = dict(property=prop, needs=needs, caught_by=caught, first_key=key,
                 confirmed=(conf or {}).get("confirmed"),
-                ran=["tools/confirm_seed.py seeded/%s  (apply patch to the confirmation worktree, build, run the repository suite in two passes, build and run demo.cpp without and with the patch)" % seed,
+                ran=[("tools/confirm_group.py  (per seed: demo.cpp built and run without and with the patch; then all round-3 patches applied together in the confirmation worktree and the repository suite run once in two passes: %s)" % (conf or {}).get("suite")) if (conf or {}).get("suite") else
+                     "tools/confirm_seed.py seeded/%s  (apply patch to the confirmation worktree, build, run the repository suite in two passes, build and run demo.cpp without and with the patch)" % seed,
                      "tools/mutant.py seeded/%s/patch.diff %s quick" % (seed, prop)],
                 confirm=conf)
     json.dump(meta, open(os.path.join(d, "meta.json"), "w"), indent=1)
